@@ -238,6 +238,9 @@ def opaque_getattr(ex, base, attr, node):
         s = spec[attr]
         k = flat_kind(s)
         if k is not None:
+            arr = ex.st.ghost.get(('field', cls, attr))
+            if arr is not None:
+                return ex.unflat(z3.Select(arr, base.t), k)
             return ex.unflat(field_fn(cls, attr, k)(base.t), k)
         if s.tag == 'List':
             ek = flat_kind(s.args[0])
@@ -287,6 +290,25 @@ def opaque_getattr(ex, base, attr, node):
 
 
 def opaque_setattr(ex, base, attr, v, node):
+    """Attribute store on an object known only by reference: the field becomes a heap array
+    Ref -> value (Burstall model), so aliases see the update."""
+    cls = base.cls
+    spec = ex.class_specs.get(cls) if cls else None
+    if spec and attr in spec:
+        k = flat_kind(spec[attr])
+        if k is not None:
+            info = ex.find_class(cls)
+            if info is not None and info.find_method(attr + '.setter') is not None:
+                ex.used_assumptions.add(f'A-CIMOBJ: setter {cls}.{attr} stores the given value (normalisation not modelled)')
+            key = ('field', cls, attr)
+            arr = ex.st.ghost.get(key)
+            if arr is None:
+                r = z3.Const('r__', RefSort)
+                arr = z3.Lambda([r], field_fn(cls, attr, k)(r))
+            ex.st.ghost[key] = z3.Store(arr, base.t, ex.flat(v, k))
+            for ent in getattr(ex, '_wl_stack', []):
+                ent[0].add(-100)
+            return
     ex.limit(f'attribute store {attr!r} on opaque object', node)
 
 
